@@ -1,6 +1,6 @@
 (* C19 — Every held request is answered exactly once. Only statements here. *)
 From Coq Require Import List ZArith.
-Require Import MTX.Lib.Trace MTX.Model.PathSM MTX.Proofs.PathSM MTX.Proofs.PathSM_Thms.
+Require Import MTX.Lib.Trace MTX.Model.PathSM MTX.Proofs.PathSM MTX.Proofs.PathSM_Thms MTX.Proofs.PathSM_Events.
 Import ListNotations.
 Local Open Scope Z_scope.
 
@@ -13,6 +13,29 @@ Theorem C19_held_has_deadline : forall cf ops,
   held s <> [] -> s_closed s = false /\ has_deadline s.
 Proof. exact c19_held_has_deadline. Qed.
 Print Assumptions C19_held_has_deadline.
+
+(* no request id is answered twice in any history whose operations carry distinct request ids, and a request
+   that is still on hold has not been answered *)
+Theorem C19_at_most_once : forall cf ops,
+  NoDup (flat_map req_ids ops) ->
+  NoDup (ak (snd (run cf ops)) ++ held (fst (run cf ops))).
+Proof. exact (c19_at_most_once true). Qed.
+Print Assumptions C19_at_most_once.
+
+(* once the path has closed, the answered ids are exactly (a permutation of) the ids of the requests that
+   reached the path: every one of them was answered exactly once *)
+Theorem C19_exactly_once_when_closed : forall cf ops,
+  conf_ok cf = true -> s_closed (fst (run cf ops)) = true ->
+  Permutation.Permutation (ak (snd (run cf ops))) (all_keys true (init_state cf) ops).
+Proof. exact (c19_exactly_once_closed true). Qed.
+Print Assumptions C19_exactly_once_when_closed.
+
+(* Close answers every held request with "terminated" and leaves nothing on hold *)
+Theorem C19_answered_on_close : forall s q,
+  s_closed s = false -> In q (held s) ->
+  In (EAnswer q (AErr E_TERMINATED)) (snd (step s Close)) /\ held (fst (step s Close)) = [].
+Proof. exact (c19_answered_on_close true). Qed.
+Print Assumptions C19_answered_on_close.
 
 (* the finding: before the repair (fix: commit 21d36a9 in the repository) the statement was false *)
 Theorem C19_held_has_deadline_refuted :
